@@ -25,8 +25,8 @@ from icalendar.timezone import tzp
 UTC = ZoneInfo("UTC")
 EPOCH = datetime(1970, 1, 1, tzinfo=UTC)
 HARD = ["Europe/Berlin", "America/New_York", "Africa/Cairo", "Africa/Casablanca", "Europe/Dublin", "Pacific/Apia", "Africa/Monrovia",
-        "Asia/Kolkata", "Australia/Lord_Howe", "America/St_Johns", "Asia/Kathmandu", "Pacific/Kiritimati", "Etc/GMT+5", "UTC",
-        "Europe/London", "America/Sao_Paulo", "Asia/Tehran", "Antarctica/Troll", "Europe/Moscow", "Pacific/Fiji"]
+        "Pacific/Fiji", "Europe/Moscow", "Asia/Pyongyang", "America/Indiana/Knox", "Australia/Lord_Howe", "Asia/Kathmandu", "America/St_Johns",
+        "Asia/Kolkata", "Pacific/Kiritimati", "Etc/GMT+5", "UTC", "Europe/London", "America/Sao_Paulo", "Asia/Tehran", "Antarctica/Troll"]
 
 
 def secs(d):
@@ -98,7 +98,7 @@ def run(ctx: Ctx):
 
     allz = sorted(available_timezones())
     if ctx.quick:
-        ids = HARD[:12] + rnd.sample([z for z in allz if "/" in z and not z.startswith(("posix", "right"))], 8)
+        ids = HARD[:14] + rnd.sample([z for z in allz if "/" in z and not z.startswith(("posix", "right"))], 6)
         windows = [(date(1970, 1, 1), date(2038, 1, 1))]
     else:
         ids = [z for z in allz if not z.startswith(("posix/", "right/"))]
